@@ -127,6 +127,85 @@ def _variant_idx(name):
     return None
 
 
+def _thread_try(blocks, bo, n, ret_local, target):
+    """`helper(..)?`: the continuation calls Try::branch(dest) and switches on the ControlFlow it returns. A path of the helper
+    that returns a constant Ok(..)/Some(..) continues, one that returns Err(..)/None breaks: send each through private copies of
+    the two continuation blocks straight to that arm (the Try::branch call itself is kept, its result is still read)."""
+    T = blocks[target]
+    tt = T["t"]
+    if len(tt[4]) != 1 or tt[4][0][0] != "m" or tt[4][0][1][1]:
+        return
+    dest = tt[4][0][1][0]
+    if any(st[2] != "dead" for st in T["s"]):
+        return
+    t2i = tt[6]
+    T2 = blocks[t2i]
+    t2 = T2["t"]
+    if t2[2] != "switch" or t2[3][0] not in ("c", "m") or t2[3][1][1]:
+        return
+    cf = tt[5]                      # place receiving the ControlFlow
+    if cf[1]:
+        return
+    ok_shape = False
+    for st in T2["s"]:
+        if st[2] == "dead":
+            continue
+        if st[2] == "=" and not st[3][1] and st[3][0] == t2[3][1][0] and st[4][0] == "discr" and st[4][1] == [cf[0], []]:
+            ok_shape = True
+            continue
+        return
+    if not ok_shape:
+        return
+    ret_blocks = set(i for i in range(bo, bo + n) if any(st[2] == "=" and st[4][0] == "use" and st[4][1][0] == "m" and st[4][1][1] == [ret_local, []] and st[3] == [dest, []] for st in blocks[i]["s"]))
+    for i in range(bo, bo + n):
+        b = blocks[i]
+        if b["t"][2] != "goto":
+            continue
+        c = None
+        for st in b["s"]:
+            if st[2] == "=" and st[3] == [ret_local, []]:
+                c = _const_of(st[4])
+        if c is None or c[0] != "variant":
+            continue
+        vn = c[1].rsplit("::", 1)[1]
+        if vn in ("Ok", "Some"):
+            want = 0            # ControlFlow::Continue
+        elif vn in ("Err", "None"):
+            want = 1            # ControlFlow::Break
+        else:
+            continue
+        tg = None
+        for val, t in t2[4]:
+            if val == want:
+                tg = t
+        if tg is None:
+            tg = t2[5]
+        j, hops, chain = b["t"][3], 0, []
+        while j not in ret_blocks and hops < 16 and bo <= j < bo + n and blocks[j]["t"][2] in ("goto", "drop") \
+                and not any(st[2] == "=" and st[3][0] == ret_local for st in blocks[j]["s"]):
+            chain.append(j)
+            j = blocks[j]["t"][3] if blocks[j]["t"][2] == "goto" else blocks[j]["t"][4]
+            hops += 1
+        if j not in ret_blocks:
+            continue
+        first_new = len(blocks)
+        for k, cj in enumerate(chain):
+            src = blocks[cj]
+            t3 = list(src["t"])
+            if t3[2] == "goto":
+                t3[3] = first_new + k + 1
+            else:
+                t3[4] = first_new + k + 1
+            blocks.append({"c": src["c"], "s": list(src["s"]), "t": t3})
+        base = len(blocks)
+        # copy of the return block (dest = move ret), then Try::branch, then the discriminant read, then the chosen arm
+        callt = list(tt)
+        callt[6] = base + 1
+        blocks.append({"c": b["c"], "s": list(blocks[j]["s"]) + list(T["s"]), "t": callt})
+        blocks.append({"c": b["c"], "s": list(T2["s"]), "t": [t2[0], t2[1], "goto", tg]})
+        blocks[i] = {"c": b["c"], "s": list(b["s"]), "t": [b["t"][0], b["t"][1], "goto", first_new if chain else base]}
+
+
 def _thread_constant_returns(blocks, bo, n, ret_local, target):
     """Jump threading for `return <constant>` in an inlined helper: when a path of the callee assigns a constant bool / Option /
     Result variant to its return place and the caller immediately switches on the result, that path is sent straight to the
@@ -136,6 +215,9 @@ def _thread_constant_returns(blocks, bo, n, ret_local, target):
         return
     T = blocks[target]
     tt = T["t"]
+    if tt[2] == "call" and isinstance(tt[3], dict) and str(tt[3].get("d", "")).endswith("Try::branch") and tt[6] is not None:
+        _thread_try(blocks, bo, n, ret_local, target)
+        return
     if tt[2] != "switch" or tt[3][0] not in ("c", "m") or tt[3][1][1]:
         return
     # find the caller's dest: the local the inlined return blocks assign (`dest = move ret`)
@@ -241,7 +323,19 @@ def inlinable(prog, caller_name, callee_name, stack):
 
 
 def inline_raw(prog, name, depth=3, stack=()):
-    """raw dict of function `name` with private helpers spliced in; (raw, [names inlined])."""
+    """raw dict of function `name` with private helpers spliced in; (raw, [names inlined]). Memoised per (function, depth):
+    the caller's stack only matters for direct recursion, which `inlinable` rules out on its own."""
+    memo = prog.__dict__.setdefault("_inline_memo", {})
+    key = (name, depth)
+    if key in memo:
+        return memo[key]
+    memo[key] = (prog.raw_fns[name], [])          # provisional entry: a cycle back to `name` sees the un-inlined body
+    res = _inline_raw(prog, name, depth, stack)
+    memo[key] = res
+    return res
+
+
+def _inline_raw(prog, name, depth, stack):
     raw = prog.raw_fns[name]
     if depth <= 0:
         return raw, []
